@@ -128,8 +128,11 @@ type readCase struct {
 	// receives Grow more before its call number GrowAt
 	Grow   int `json:"grow"`
 	GrowAt int `json:"grow_at"`
-	Stream int `json:"stream_len"`
-	Limit  int `json:"limit"`
+	// CopyFirst, when non-zero: before the Read calls the limited reader is drained with io.Copy (which prefers
+	// an io.WriterTo if the reader offers one) into a writer that fails after CopyFirst-1 bytes
+	CopyFirst int `json:"copy_first"`
+	Stream    int `json:"stream_len"`
+	Limit     int `json:"limit"`
 	// Huge, when non-zero, replaces Limit: limits around 2^63 and 2^64 ("unlimited")
 	Huge   uint64 `json:"huge_limit"`
 	Bufs   []int  `json:"buf_sizes"`
@@ -163,6 +166,20 @@ func runRead(c readCase) (what string, calls int) {
 	}
 	lr := ioutil.LimitReader(wrapped, limit)
 	var delivered []byte
+	if c.CopyFirst > 0 {
+		// the standard helper is the caller here; whatever path it takes, the source-side monitor keeps counting
+		dst := &failingSink{okBytes: c.CopyFirst - 1}
+		_, _ = io.Copy(dst, lr)
+		calls++
+		if len(src.problems) > 0 {
+			return "during io.Copy into a writer that fails after " + fmt.Sprint(c.CopyFirst-1) + " bytes: " + src.problems[0], calls
+		}
+		if src.returned > limit {
+			return fmt.Sprintf("io.Copy took %d bytes out of the source, the limit is %d", src.returned, limit), calls
+		}
+		// what the source handed out is gone, whether or not the sink kept it
+		delivered = append(delivered, src.stream[:src.returned]...)
+	}
 	for i, sz := range c.Bufs {
 		p := bytes.Repeat([]byte{0xEE}, sz)
 		src.called = false
@@ -220,6 +237,19 @@ func runRead(c readCase) (what string, calls int) {
 	return "", calls
 }
 
+// failingSink accepts okBytes bytes and then fails (short write with an error).
+type failingSink struct{ okBytes, got int }
+
+func (f *failingSink) Write(b []byte) (int, error) {
+	room := f.okBytes - f.got
+	if len(b) <= room {
+		f.got += len(b)
+		return len(b), nil
+	}
+	f.got += max(room, 0)
+	return max(room, 0), errWrite
+}
+
 // ---- writer
 
 const (
@@ -262,6 +292,8 @@ type writeCase struct {
 	Script []int `json:"writer_script"`
 	// Huge, when non-zero, replaces Limit: limits around MaxInt and MaxUint ("never truncate")
 	Huge uint `json:"huge_limit"`
+	// ViaString: every other chunk is written with io.WriteString
+	ViaString bool `json:"via_write_string"`
 }
 
 var writePattern = []byte("A\u00e9\u20acB\U0001f600\x80C\xbfD\u00e9\u00e9")
@@ -284,7 +316,13 @@ func runWrite(c writeCase) (what string, calls int) {
 		}
 		orig := bytes.Clone(b)
 		all = append(all, b...)
-		n, _ := tw.Write(b)
+		var n int
+		if c.ViaString && i%2 == 1 {
+			// io.WriteString prefers an io.StringWriter if the writer offers one
+			n, _ = io.WriteString(tw, string(b))
+		} else {
+			n, _ = tw.Write(b)
+		}
 		calls++
 		if n != len(b) {
 			return fmt.Sprintf("write %d of %d bytes reported %d", i, len(b), n), calls
@@ -510,6 +548,27 @@ func TestReader(t *testing.T) {
 			r.Count("reader_histories_with_negative_counts", int64(hi-lo))
 		})
 	}
+	// consumers that go through io.Copy first (optional-interface fast paths count as reads of r like any other)
+	{
+		var ce int64
+		for streamLen := 0; streamLen <= 12; streamLen += 3 {
+			for limit := 0; limit <= 10; limit += 2 {
+				for copyFirst := 1; copyFirst <= 8; copyFirst++ {
+					for sc := 0; sc < gen.PowInt(3, 3); sc++ {
+						c := readCase{Stream: streamLen, Limit: limit, CopyFirst: copyFirst, Bufs: []int{4, 1, 8, 8}, Script: make([]int, 3)}
+						gen.SeqAt(3, sc, c.Script) // full / short / (0,nil)
+						what, calls := runRead(c)
+						ce += int64(calls)
+						if what != "" {
+							r.Violation(fmt.Sprintf("reader-copy:%v", c), fmt.Sprintf("LimitReader(stream of %d bytes, n=%d) drained with io.Copy into a writer failing after %d bytes, then read with buffers %v, wrapped reader script %v: %s", streamLen, limit, copyFirst-1, c.Bufs, names(c.Script, rKindNames), what), c)
+						}
+					}
+				}
+			}
+		}
+		r.Eval(ce)
+		r.Count("reader_io_copy_calls", ce)
+	}
 	// sources that report their length and are still being filled when they are wrapped
 	{
 		var ge int64
@@ -668,13 +727,14 @@ func TestWriter(t *testing.T) {
 				sum += chunkSizes[j]
 			}
 			gen.SeqAt(nWKinds, x/nc, c.Script)
+			c.ViaString = i%2 == 1
 			what, calls := runWrite(c)
 			evals += int64(calls)
 			if sum >= c.Limit {
 				nontriv++
 			}
 			if what != "" {
-				cc := writeCase{Limit: c.Limit, Chunks: append([]int{}, c.Chunks...), Script: append([]int{}, c.Script...)}
+				cc := writeCase{Limit: c.Limit, Chunks: append([]int{}, c.Chunks...), Script: append([]int{}, c.Script...), ViaString: c.ViaString}
 				r.Violation(fmt.Sprintf("writer:%v", cc), fmt.Sprintf("TruncatedWriter(limit %d), writes of sizes %v, wrapped writer script %v: %s", c.Limit, c.Chunks, c.Script, what), cc)
 				if r.TooMany() {
 					break
